@@ -7,7 +7,7 @@ INIT Init
 NEXT Next
 CONSTANTS
   AllowDupStart = TRUE
-  AllowSilentInit = TRUE
+  AllowSilentInit = FALSE
   AllowDoubleError = TRUE
   SInsts = {}
   SIds = {}
@@ -33,7 +33,7 @@ CONSTANTS
   MaxTicks = 0
   FixDup = FALSE
   FixDel = FALSE
-  FixInit = FALSE
+  FixInit = TRUE
   PreAcked = FALSE
   Sync = TRUE
 VIEW view
